@@ -22,7 +22,7 @@ def setup_files(d, spec):
     rnd = random.Random(spec['seed'])
     pair = spec['pair']
     se, sx, re_, rx = repl.PAIRS[pair]
-    case = geo.build(spec.get('cell', 'ortho'), None, spec.get('copies', 3), rnd, decoys=2, noise=spec.get('noise', 0.0), pattern_override=(se, sx))
+    case = geo.build(spec.get('cell', 'ortho'), None, spec.get('copies', 3), rnd, decoys=spec.get('decoys', 2), noise=spec.get('noise', 0.0), pattern_override=(se, sx))
     S = case['structure']
     paths = {}
     fmt = spec['infmt']
@@ -193,6 +193,11 @@ def run(rec, tier, seed):
         dict(pair='sym-grow', opts=dict(find=True, atol=0.08)),
         dict(pair='swap-element', opts=dict()),
         dict(pair='swap-element', opts=dict(replicate=[1, 1, 2], charges=True)),
+        # twice the cutoff is exactly one cell length (c = 24): that axis is long enough as it is
+        dict(pair='swap-element', opts=dict(find=True, replace=True, mic=12.0)),
+        # a structure of a single atom (one ion per cell), replicated, with a one-line charge file
+        dict(pair='single-swap', opts=dict(find=True, replace=True, replicate=[2, 1, 1], charges=True), copies=1, decoys=0),
+        dict(pair='single-swap', opts=dict(charges=True), copies=1, decoys=0),
     ]
     k = 0
     for bi, b in enumerate(base):
@@ -201,7 +206,7 @@ def run(rec, tier, seed):
                 k += 1
                 if tier == 'quick' and (k + bi) % 3 != 0 and infmt != 'cif':
                     continue     # rotates through the (input, output) format combinations from one option set to the next
-                spec = dict(pair=b['pair'], opts=b['opts'], infmt=infmt, outfmt=outfmt, seed=seed * 100 + k, rng=k, noise=b.get('noise', 0.0), copies=b.get('copies', 3))
+                spec = dict(pair=b['pair'], opts=b['opts'], infmt=infmt, outfmt=outfmt, seed=seed * 100 + k, rng=k, noise=b.get('noise', 0.0), copies=b.get('copies', 3), decoys=b.get('decoys', 2))
                 msg = check(spec)
                 rec.case(repr(sorted(spec.items(), key=str)), sample=spec if len(rec.samples) < 2 else None)
                 if msg:
